@@ -14,21 +14,88 @@ use std::collections::BTreeMap;
 
 #[derive(Clone, Copy, Debug, PartialEq, Eq)]
 pub struct Val {
-    pub w:   Option<W>,
+    pub w:    Option<W>,
     /// produced by a PUSH and only moved (DUP/SWAP/MSTORE/MLOAD) since
-    pub lit: bool,
+    pub lit:  bool,
+    /// id of the provenance set: every known word (pushed constant or known intermediate result)
+    /// that flowed into this value; 0 is the empty set. See `RefRun::provenance`.
+    pub prov: u32,
 }
 
 impl Val {
     pub fn k(w: W) -> Val {
-        Val { w: Some(w), lit: false }
+        Val { w: Some(w), lit: false, prov: prov_single(w) }
     }
     pub fn lit(w: W) -> Val {
-        Val { w: Some(w), lit: true }
+        Val { w: Some(w), lit: true, prov: prov_single(w) }
     }
     pub fn u() -> Val {
-        Val { w: None, lit: false }
+        Val { w: None, lit: false, prov: 0 }
     }
+    /// a value computed from others: known or not, it carries everything that flowed into it
+    pub fn derived(w: Option<W>, from: &[Val]) -> Val {
+        let mut p = 0;
+        for f in from {
+            p = prov_union(p, f.prov);
+        }
+        if let Some(x) = w {
+            p = prov_union(p, prov_single(x));
+        }
+        Val { w, lit: false, prov: p }
+    }
+}
+
+thread_local! {
+    static ARENA: std::cell::RefCell<(Vec<std::collections::BTreeSet<W>>, std::collections::HashMap<std::collections::BTreeSet<W>, u32>)> =
+        std::cell::RefCell::new((vec![std::collections::BTreeSet::new()], std::collections::HashMap::new()));
+}
+
+fn arena_reset() {
+    ARENA.with(|a| {
+        let mut a = a.borrow_mut();
+        a.0.clear();
+        a.0.push(std::collections::BTreeSet::new());
+        a.1.clear();
+    });
+}
+
+fn intern(set: std::collections::BTreeSet<W>) -> u32 {
+    if set.is_empty() {
+        return 0;
+    }
+    ARENA.with(|a| {
+        let mut a = a.borrow_mut();
+        if let Some(id) = a.1.get(&set) {
+            return *id;
+        }
+        let id = a.0.len() as u32;
+        a.0.push(set.clone());
+        a.1.insert(set, id);
+        id
+    })
+}
+
+fn prov_single(w: W) -> u32 {
+    intern(std::collections::BTreeSet::from([w]))
+}
+
+fn prov_union(a: u32, b: u32) -> u32 {
+    if a == b || b == 0 {
+        return a;
+    }
+    if a == 0 {
+        return b;
+    }
+    let set = ARENA.with(|ar| {
+        let ar = ar.borrow();
+        let mut s = ar.0[a as usize].clone();
+        // bounded: provenance beyond 64 words is not needed by any oracle
+        if s.len() < 64 {
+            s.extend(ar.0[b as usize].iter().copied());
+        }
+        s
+    });
+    intern(set)
 }
 
 #[derive(Clone, Debug, PartialEq, Eq)]
@@ -72,6 +139,8 @@ pub struct Path {
     pub mem:            BTreeMap<W, Val>,
     /// memory was written through an instruction the reference does not model exactly
     pub mem_imprecise:  bool,
+    /// some value's provenance may be incomplete (a hash over memory the reference does not know)
+    pub prov_imprecise: bool,
     pub sstores:        Vec<(Val, Val, usize)>,
     pub sloads:         Vec<(Val, usize)>,
     pub end:            End,
@@ -103,6 +172,8 @@ pub struct RefCfg<'a> {
 }
 
 pub struct RefRun {
+    /// provenance sets by id (see `Val::prov`)
+    pub prov_sets: Vec<std::collections::BTreeSet<W>>,
     pub paths:    Vec<Path>,
     /// the exploration was cut by max_paths / max_steps
     pub complete: bool,
@@ -121,8 +192,8 @@ struct Thread {
 }
 
 fn alu2(op: u8, a: Val, b: Val) -> Val {
-    let (Some(x), Some(y)) = (a.w, b.w) else { return Val::u() };
-    Val::k(match op {
+    let (Some(x), Some(y)) = (a.w, b.w) else { return Val::derived(None, &[a, b]) };
+    Val::derived(Some(match op {
         0x01 => x.add(y),
         0x02 => x.mul(y),
         0x03 => x.sub(y),
@@ -144,11 +215,12 @@ fn alu2(op: u8, a: Val, b: Val) -> Val {
         0x1b => y.shl(x),
         0x1c => y.shr(x),
         0x1d => y.sar(x),
-        _ => return Val::u(),
-    })
+        _ => return Val::derived(None, &[a, b]),
+    }), &[a, b])
 }
 
 pub fn run(code: &[u8], cfg: &RefCfg) -> RefRun {
+    arena_reset();
     let kinds = classify(code);
     let mut done: Vec<Path> = vec![];
     let mut queue: Vec<Thread> = vec![Thread {
@@ -159,6 +231,7 @@ pub fn run(code: &[u8], cfg: &RefCfg) -> RefRun {
             stack: vec![],
             mem: BTreeMap::new(),
             mem_imprecise: false,
+            prov_imprecise: false,
             sstores: vec![],
             sloads: vec![],
             end: End::Budget,
@@ -230,49 +303,61 @@ pub fn run(code: &[u8], cfg: &RefCfg) -> RefRun {
                     let b = st.pop().unwrap();
                     let n = st.pop().unwrap();
                     st.push(match (a.w, b.w, n.w) {
-                        (Some(a), Some(b), Some(n)) => Val::k(if op == 0x08 { a.addmod(b, n) } else { a.mulmod(b, n) }),
-                        _ => Val::u(),
+                        (Some(x), Some(y), Some(m)) => Val::derived(Some(if op == 0x08 { x.addmod(y, m) } else { x.mulmod(y, m) }), &[a, b, n]),
+                        _ => Val::derived(None, &[a, b, n]),
                     });
                 }
                 0x15 => {
                     let a = st.pop().unwrap();
-                    st.push(a.w.map(|x| Val::k(W::from_bool(x.is_zero()))).unwrap_or(Val::u()));
+                    st.push(Val::derived(a.w.map(|x| W::from_bool(x.is_zero())), &[a]));
                 }
                 0x19 => {
                     let a = st.pop().unwrap();
-                    st.push(a.w.map(|x| Val::k(x.not())).unwrap_or(Val::u()));
+                    st.push(Val::derived(a.w.map(|x| x.not()), &[a]));
                 }
                 0x20 => {
                     let off = st.pop().unwrap();
                     let size = st.pop().unwrap();
-                    let mut out = Val::u();
+                    let mut from = vec![off, size];
+                    let mut hash = None;
+                    let mut precise = false;
                     if let (Some(o), Some(s)) = (off.w, size.w) {
                         if let Some(s64) = s.as_u64_checked() {
-                            if s64 % 32 == 0 && s64 <= 32 * 8 && !t.mem_unknown_default {
+                            if s64 <= 32 * 16 && !t.mem_unknown_default {
+                                precise = true;
                                 let mut words = vec![];
-                                let mut ok = true;
-                                for i in 0..(s64 / 32) {
+                                let mut all_known = s64 % 32 == 0;
+                                for i in 0..((s64 + 31) / 32) {
                                     let k = o.add(W::from_u64(i * 32));
                                     match t.path.mem.get(&k) {
-                                        Some(Val { w: Some(w), .. }) => words.push(*w),
-                                        Some(_) => ok = false,
+                                        Some(v) => {
+                                            from.push(*v);
+                                            match v.w {
+                                                Some(w) => words.push(w),
+                                                None => all_known = false,
+                                            }
+                                        }
                                         None => {
                                             // unwritten aligned memory reads as zero only if no other store overlaps
                                             if overlaps(&t.path.mem, k) {
-                                                ok = false;
+                                                all_known = false;
+                                                precise = false;
                                             } else {
                                                 words.push(W::ZERO)
                                             }
                                         }
                                     }
                                 }
-                                if ok {
-                                    out = Val::k(keccak_words(&words));
+                                if all_known {
+                                    hash = Some(keccak_words(&words));
                                 }
                             }
                         }
                     }
-                    t.path.stack.push(out);
+                    if !precise {
+                        t.path.prov_imprecise = true;
+                    }
+                    t.path.stack.push(Val::derived(hash, &from));
                 }
                 0x38 => st.push(Val::k(W::from_u64(code.len() as u64))),
                 0x58 => st.push(Val::k(W::from_u64(pc as u64))),
@@ -286,13 +371,17 @@ pub fn run(code: &[u8], cfg: &RefCfg) -> RefRun {
                             Some(v) => *v,
                             None => {
                                 if t.mem_unknown_default || overlaps(&t.path.mem, o) {
+                                    t.path.prov_imprecise = true;
                                     Val::u()
                                 } else {
                                     Val::k(W::ZERO)
                                 }
                             }
                         },
-                        None => Val::u(),
+                        None => {
+                            t.path.prov_imprecise = true;
+                            Val::u()
+                        }
                     };
                     t.path.stack.push(v);
                 }
@@ -322,14 +411,25 @@ pub fn run(code: &[u8], cfg: &RefCfg) -> RefRun {
                         }
                     }
                 }
-                0x53 | 0x37 | 0x39 | 0x3c | 0x3e => {
-                    // MSTORE8 and the bulk copies: not modelled exactly
+                0x53 => {
+                    // MSTORE8: not modelled exactly
                     for _ in 0..pops {
                         t.path.stack.pop();
                     }
                     t.path.mem.clear();
                     t.mem_unknown_default = true;
                     t.path.mem_imprecise = true;
+                    t.path.prov_imprecise = true;
+                }
+                0x37 | 0x39 | 0x3c | 0x3e => {
+                    // bulk copies: the destination words become unknown
+                    if op == 0x3c {
+                        t.path.stack.pop();
+                    }
+                    let dest = t.path.stack.pop().unwrap();
+                    let _src = t.path.stack.pop().unwrap();
+                    let size = t.path.stack.pop().unwrap();
+                    clobber(&mut t, dest, size);
                 }
                 0x54 => {
                     let k = st.pop().unwrap();
@@ -354,12 +454,12 @@ pub fn run(code: &[u8], cfg: &RefCfg) -> RefRun {
                                 }
                             }
                             match (found, aliased) {
-                                (Some(v), _) => Val { w: v.w, lit: false },
-                                (None, true) => Val::u(),
-                                (None, false) => Val::k(W::ZERO),
+                                (Some(v), _) => Val::derived(v.w, &[v, k]),
+                                (None, true) => Val::derived(None, &[k]),
+                                (None, false) => Val::derived(Some(W::ZERO), &[k]),
                             }
                         }
-                        None => Val::u(),
+                        None => Val::derived(None, &[k]),
                     };
                     t.path.sloads.push((k, pc));
                     t.path.stack.push(v);
@@ -452,13 +552,11 @@ pub fn run(code: &[u8], cfg: &RefCfg) -> RefRun {
                     }
                 }
                 0xf1 | 0xf2 | 0xf4 | 0xfa => {
-                    for _ in 0..pops {
-                        t.path.stack.pop();
-                    }
+                    // the return area becomes unknown; the rest of memory is untouched
+                    let args: Vec<Val> = (0..pops).map(|_| t.path.stack.pop().unwrap()).collect();
+                    let (ret_off, ret_size) = (args[pops - 2], args[pops - 1]);
+                    clobber(&mut t, ret_off, ret_size);
                     t.path.stack.push(Val::u());
-                    t.path.mem.clear();
-                    t.mem_unknown_default = true;
-                    t.path.mem_imprecise = true;
                 }
                 _ => {
                     // environment / log / create: pops, pushes unknowns
@@ -489,16 +587,54 @@ pub fn run(code: &[u8], cfg: &RefCfg) -> RefRun {
         t.path.end = end;
         done.push(t.path);
     }
+    let prov_sets = ARENA.with(|a| a.borrow().0.clone());
     RefRun {
         paths: done,
         complete,
         kinds,
+        prov_sets,
+    }
+}
+
+impl RefRun {
+    pub fn provenance(&self, v: &Val) -> &std::collections::BTreeSet<W> {
+        &self.prov_sets[v.prov as usize]
     }
 }
 
 fn word_distance(a: W, b: W) -> Option<u64> {
     let d = if a.ult(b) { b.sub(a) } else { a.sub(b) };
     d.as_u64_checked()
+}
+
+/// `size` bytes from `dest` become unknown. Exact when both are known, small and the area is made of
+/// whole words that coincide with (or are disjoint from) the words stored so far.
+fn clobber(t: &mut Thread, dest: Val, size: Val) {
+    let exact = match (dest.w, size.w.and_then(|s| s.as_u64_checked())) {
+        (Some(d), Some(n)) if n <= 32 * 16 => {
+            let words = (n + 31) / 32;
+            let mut ok = true;
+            for i in 0..words {
+                let k = d.add(W::from_u64(i * 32));
+                if overlaps(&t.path.mem, k) {
+                    ok = false;
+                }
+            }
+            if ok {
+                for i in 0..words {
+                    t.path.mem.insert(d.add(W::from_u64(i * 32)), Val::u());
+                }
+            }
+            ok
+        }
+        _ => false,
+    };
+    if !exact {
+        t.path.mem.clear();
+        t.mem_unknown_default = true;
+        t.path.mem_imprecise = true;
+        t.path.prov_imprecise = true;
+    }
 }
 
 fn overlaps(mem: &BTreeMap<W, Val>, k: W) -> bool {
